@@ -285,7 +285,9 @@ def run(ctx):
     slow_eof_cases(ctx)
     # real children that die at any point, at the OS level or through Python
     from harness import corr_c02
-    corr_c02.run_cases(ctx, corr_c02.death_cases(ctx, 10 if ctx.quick() else 200))
+    corr_c02.run_cases(ctx, corr_c02.death_cases(ctx, 10 if ctx.quick() else 200)
+                       + corr_c02.stdin_cases(ctx, 2 if ctx.quick() else 30)
+                       + corr_c02.noisy_cases(ctx, 6 if ctx.quick() else 100))
 
 
 STDOUT_LINES = [b"...\rprogress of a test\n", b"  Ran 3 tests with 0 failures\n", b".\n", b"....\n", b"..\r\n", b"...\r", b"." * 72 + b" done\n",
